@@ -277,6 +277,18 @@ def c12_lookup_overlapping_replace(r):
         shutil.rmtree(d, ignore_errors=True)
 
 
+def c10_prefix_alias(r):
+    import diskcache
+    d = tempfile.mkdtemp()
+    try:
+        c = diskcache.Cache(d)
+        c.push('x', prefix='a-5')
+        got = c.pull(prefix='a')
+        return {'reproduced': got != (None, None), 'observed': repr(got), 'input': "push('x', prefix='a-5'); pull(prefix='a')"}
+    finally:
+        shutil.rmtree(d, ignore_errors=True)
+
+
 def main():
     r = json.load(sys.stdin)
     try:
